@@ -104,6 +104,10 @@ def mon (st : St) (op : List String) (outs : List (List String)) : St × List St
       (if tot > need * (1 + 1 / 1000000000) + 1 / 1000000 ∧ need ≥ 0 then [s!"PROP partial allocation {showRat tot} exceeds the requested work {showRat need}"] else []) ++
       (if dupIds (impl.map (·.1)) then ["PROP a miner received more than one task in one call"] else [])
     ({ st with pop := applyAllocs st.pop impl }, prop ++ corr)
+  | ["gone", id] =>
+    -- the miner's session is over (it is still listed until the TCP handler removes it): it is disconnecting from now on; the tasks
+    -- it held were ended
+    ({ st with pop := st.pop.map fun m => if m.id = id then { m with disconnecting := true, tasks := 0, scheduled := 0 } else m }, [])
   | ["fullr", req, dur, victim, newhr] =>
     -- a miner's measured rate moves between the allocator's snapshot and the hand-out: the call is judged as a `full` call on
     -- the snapshot (what fits, what is accounted, how much work each task carries); later calls see the new rate
